@@ -810,10 +810,10 @@ pub fn c05() -> RenderProp {
             keys: (6, 10),
             sub_depth: 1,
             w_kinds: [1, 1, 0, 0, 12, 1, 3],
-            p_null: 0,
-            p_absent: 0,
+            p_null: 10,
+            p_absent: 10,
             p_kind_varies: 5,
-            p_inherits: 0,
+            p_inherits: 35,
             max_pieces: 3,
             max_comp_depth: 2,
             ..GenCfg::default()
@@ -834,7 +834,7 @@ pub fn c05() -> RenderProp {
                operands) and td!(..).to_html() in a run-time loop over 36 integer counts and 8 decimals; oracle = hand-transcribed CLDR \
                rules (cross-checked against ICU4X at parser level) choose the category, the written form or `other` is shown. \
                one case = one key; non-trivial = key with a plural group; distinct = hash of the resolved values",
-        assumptions: &["no fallback between locales in this generator: which locale's rules apply to an inherited plural is not specified"],
+        assumptions: &["a plural inherited from another locale is selected by the rules of the locale being rendered (what every accessor flavour does on the pinned tree)"],
         min_nontrivial: 10,
         shape: None,
         flavours: false,
